@@ -1,5 +1,6 @@
 """C14: no request or annotation can crash a plugin."""
 from fscheck import *
+import random
 from fsoracle import F
 
 SIDE = [('memory-qos', './cmd/plugins/memory-qos/', 'mq_test.go', '^TestVerifC14MemoryQos$'),
@@ -46,6 +47,23 @@ def run(tier, seed, replay=None):
             s['events'] += probe_events(i)
             s['_machine'] = m
             scripts.append(s)
+    # deterministic part: every structured junk value once in each of the two container-affinity annotations
+    # (the fuzzer above meets each of them only now and then)
+    for policy in ('topology-aware', 'balloons'):
+        m = zoo[1]
+        w = fsgen.World(random.Random(seed), policy, m, 'light')
+        cfg0 = fsgen.ta_config(random.Random(seed), m) if policy == 'topology-aware' else fsgen.bln_config(random.Random(seed), m)
+        for key in ('affinity', 'anti-affinity'):
+            for v in fsgen.YJUNK:
+                pod = w.new_pod(qos='Burstable', ns='default')
+                pod['annotations'][fsgen.NS + '/' + key] = v
+                w.run_pod(pod)
+                c = w.new_ctr(pod, name='ctr0', milli=100, mem=0)
+                w.create(c)
+                w.events[-1]['tag'] = 'junk-affinity'
+                w.stop(c); w.remove(c); w.stop_pod(pod); w.remove_pod(pod)
+        sc = dict(name='%sjunk' % policy[:2], machine=paths[m['name']], policy=policy, config=cfg0, events=w.events + probe_events(9000), _machine=m)
+        scripts.append(sc)
     if replay and 'events' in (json.load(open(replay)).get('replay') or {}):
         scripts = maybe_replay(chk, replay, scripts, zoo, paths)
     traces = run_histories(chk, binary, [{k: v for k, v in s.items() if not k.startswith('_')} for s in scripts])
